@@ -22,8 +22,10 @@ import (
 	"github.com/Fantom-foundation/lachesis-base/inter/dag"
 	"github.com/Fantom-foundation/lachesis-base/inter/idx"
 	"github.com/Fantom-foundation/lachesis-base/inter/pos"
+	"github.com/Fantom-foundation/lachesis-base/kvdb"
 	"github.com/Fantom-foundation/lachesis-base/kvdb/memorydb"
 	"github.com/Fantom-foundation/lachesis-base/utils/adapters"
+	"github.com/Fantom-foundation/lachesis-base/vecengine"
 	"github.com/Fantom-foundation/lachesis-base/vecfc"
 
 	"verifharness/vu"
@@ -98,6 +100,30 @@ func c05Diff(k int) ancestor.DiffMetricFn {
 	}
 }
 
+// c05NewIndex builds the index under test.  custom = true: vecfc.NewIndexWithEngine over an externally
+// constructed vecengine.Engine whose optional Callbacks.OnDropNotFlushed is nil (legitimate with the vector
+// caches disabled: nothing to purge); otherwise the stock vecfc.NewIndex.
+func c05NewIndex(crit func(error), custom bool, fcsize, vcsize int) *vecfc.Index {
+	cfg := vecfc.IndexConfig{Caches: vecfc.IndexCacheConfig{
+		ForklessCausePairs: fcsize, HighestBeforeSeqSize: uint(vcsize), LowestAfterSeqSize: uint(vcsize)}}
+	if !custom {
+		return vecfc.NewIndex(crit, cfg)
+	}
+	var fc *vecfc.Index
+	engine := vecengine.NewIndex(crit, vecengine.Callbacks{
+		GetHighestBefore: func(id hash.Event) vecengine.HighestBeforeI { return fc.GetHighestBefore(id) },
+		GetLowestAfter:   func(id hash.Event) vecengine.LowestAfterI { return fc.GetLowestAfter(id) },
+		SetHighestBefore: func(id hash.Event, b vecengine.HighestBeforeI) { fc.SetHighestBefore(id, b.(*vecfc.HighestBeforeSeq)) },
+		SetLowestAfter:   func(id hash.Event, b vecengine.LowestAfterI) { fc.SetLowestAfter(id, b.(*vecfc.LowestAfterSeq)) },
+		NewHighestBefore: func(size idx.Validator) vecengine.HighestBeforeI { return vecfc.NewHighestBeforeSeq(size) },
+		NewLowestAfter:   func(size idx.Validator) vecengine.LowestAfterI { return vecfc.NewLowestAfterSeq(size) },
+		OnDbReset:        func(db kvdb.Store) { fc.GetEngineCallbacks().OnDbReset(db) },
+		// OnDropNotFlushed left nil
+	})
+	fc = vecfc.NewIndexWithEngine(crit, cfg, engine)
+	return fc
+}
+
 // ---------------------------------------------------------------- running one scenario on the real code
 
 func c05Atoi(s string) int { n, _ := strconv.Atoi(s); return n }
@@ -135,8 +161,8 @@ func c05Run(in []string) []string {
 
 	crits := 0
 	crit := func(err error) { crits++ }
-	index := vecfc.NewIndex(crit, vecfc.IndexConfig{Caches: vecfc.IndexCacheConfig{
-		ForklessCausePairs: fcsize, HighestBeforeSeqSize: uint(vcsize), LowestAfterSeqSize: uint(vcsize)}})
+	custom := hd[nv+4] == "2" // engine built outside vecfc, OnDropNotFlushed == nil (caches must be 0)
+	index := c05NewIndex(crit, custom, fcsize, vcsize)
 	events := map[hash.Event]dag.Event{}
 	num := map[hash.Event]int{}
 	db := memorydb.New() // the persistent store: survives a restart of the index (op RI)
@@ -202,8 +228,7 @@ func c05Run(in []string) []string {
 				delete(num, c05ID(id))
 			}
 			order = order[:flushedLen]
-			index = vecfc.NewIndex(crit, vecfc.IndexConfig{Caches: vecfc.IndexCacheConfig{
-				ForklessCausePairs: c05Atoi(op[1]), HighestBeforeSeqSize: uint(c05Atoi(op[2])), LowestAfterSeqSize: uint(c05Atoi(op[2]))}})
+			index = c05NewIndex(crit, custom, c05Atoi(op[1]), c05Atoi(op[2]))
 			index.Reset(vals, db, getEvent)
 			dagi.Index = index
 			vu.Stat("restart_index")
@@ -213,17 +238,18 @@ func c05Run(in []string) []string {
 			// object): op[1] = 1: onto a new empty DB (all events forgotten), 0: onto the same DB (unflushed events
 			// lost); op[2..] = the new weight table (same validator ids, still descending).  Index.Reset must
 			// purge the ForklessCause, HighestBefore and LowestAfter caches itself.
-			if len(op) != 2+nv {
-				break
+			nv2 := len(op) - 2
+			if nv2 < 1 || (op[1] != "1" && nv2 != nv) {
+				break // another validator count only together with a new DB
 			}
 			b2 := pos.NewBuilder()
-			for i := 0; i < nv; i++ {
+			for i := 0; i < nv2; i++ {
 				w, _ := strconv.ParseUint(op[2+i], 10, 32)
 				b2.Set(idx.ValidatorID(i+1), pos.Weight(w))
 			}
 			vals2 := b2.Build()
 			okOrder := true
-			for i := 0; i < nv; i++ {
+			for i := 0; i < nv2; i++ {
 				if vals2.GetIdx(idx.ValidatorID(i+1)) != idx.Validator(i) {
 					okOrder = false
 				}
@@ -244,6 +270,7 @@ func c05Run(in []string) []string {
 			}
 			order = order[:flushedLen]
 			vals = vals2
+			nv = nv2
 			index.Reset(vals, db, getEvent)
 			vu.Stat("reset_same_object")
 			out = "s" + strconv.Itoa(lost)
@@ -284,6 +311,10 @@ func c05Run(in []string) []string {
 			ev := c05Ev{id: c05Atoi(op[1]), cr: c05Atoi(op[2]), seq: c05Atoi(op[3])}
 			for _, p := range op[4:] {
 				ev.parents = append(ev.parents, c05Atoi(p))
+			}
+			if ev.cr < 0 || ev.cr >= nv { // only after shrinking removed a Reset: no such validator, not submitted
+				out = "es"
+				break
 			}
 			e := c05Build(ev, vals)
 			events[e.ID()] = e
@@ -793,6 +824,88 @@ func c05Malform(r *rand.Rand, d *c05Dag, order []c05Ev) []c05Ev {
 	return out
 }
 
+// c05TwoEpochs: ONE Index object used for two consecutive epochs the way abft uses it: every event is
+// Add+Flush followed by a (no-op) DropNotFlushed, at the epoch switch the index is Reset onto a NEW empty DB with
+// ANOTHER validator set (more or fewer validators), then a second DAG (own cheaters, event ids overlapping with
+// the first epoch) is indexed.  Merged clocks and forkless cause are read throughout.
+func c05TwoEpochs(r *rand.Rand, tier string) []string {
+	d1 := c05PickDag(r, tier, 1)
+	nv2 := d1.nv + 1 + r.Intn(3)
+	if r.Intn(3) == 0 && d1.nv > 1 {
+		nv2 = 1 + r.Intn(d1.nv-1)
+	}
+	d2 := c05GenDag(r, nv2, 12+r.Intn(20), 1+r.Intn(2), 0.2+0.4*r.Float64())
+	in := c05Header(d1, c05FcSizes[r.Intn(len(c05FcSizes))], c05VcSizes[r.Intn(len(c05VcSizes))], 0, 0)
+	k := strconv.Itoa(5 + r.Intn(6))
+	phase := func(d *c05Dag) {
+		for j, e := range d.evs {
+			in = append(in, c05EvOp(e)...)
+			if r.Intn(10) < 7 {
+				in = append(in, ";", "D") // abft: deferred DropNotFlushed after the Flush of an accepted event
+			}
+			in = append(in, ";", "Q", k, strconv.Itoa(r.Intn(2)))
+			if j%4 == 3 {
+				in = append(in, ";", "M", "2")
+			}
+		}
+		in = append(in, ";", "Q", "0", "0", ";", "M", "0", ";", "V", "0")
+	}
+	phase(d1)
+	in = append(in, ";", "RS", "1")
+	for _, w := range d2.ws {
+		in = append(in, strconv.FormatUint(uint64(w), 10))
+	}
+	phase(d2)
+	vu.Stat("scenario_two_epochs")
+	if nv2 > d1.nv {
+		vu.Stat("epoch_switch_more_validators")
+	} else {
+		vu.Stat("epoch_switch_fewer_validators")
+	}
+	return in
+}
+
+// c05Speculative: Add WITHOUT Flush of a speculative version of an event (all its parents), DropNotFlushed, then
+// the real event with the same creator / seq (its own id) and FEWER parents is added and flushed (abft: Build or a
+// rejected Process followed by the creator's real event).  custom = the index is built with
+// vecfc.NewIndexWithEngine and a nil OnDropNotFlushed callback (vector caches 0).
+func c05Speculative(r *rand.Rand, tier string, custom bool) []string {
+	d := c05PickDag(r, tier, 1)
+	order := c05Order(r, d, r.Intn(3))
+	fc, vc, mal := c05FcSizes[r.Intn(len(c05FcSizes))], c05VcSizes[r.Intn(len(c05VcSizes))], 0
+	if custom {
+		fc, vc, mal = 0, 0, 2
+	}
+	in := c05Header(d, fc, vc, 0, mal)
+	k := strconv.Itoa(6 + r.Intn(6))
+	for j, e := range order {
+		if e.seq > 1 && len(e.parents) > 1 && r.Intn(3) == 0 {
+			// the speculative event has its own (temporary) id, as abft.Build assigns one: the ForklessCause LRU
+			// is not purged by DropNotFlushed, so an id must never be reused for another event
+			x := e
+			x.id = 100000 + e.id
+			op := c05EvOp(x)
+			op[1] = "A"
+			in = append(in, op...)
+			in = append(in, ";", "Q", k, "0", ";", "D")
+			e.parents = e.parents[:1+r.Intn(len(e.parents)-1)]
+			vu.Stat("speculative_then_real")
+		}
+		in = append(in, c05EvOp(e)...)
+		in = append(in, ";", "Q", k, strconv.Itoa(r.Intn(2)))
+		if j%6 == 5 {
+			in = append(in, ";", "V", "3", ";", "M", "3")
+		}
+	}
+	in = append(in, ";", "Q", "0", "0", ";", "V", "0", ";", "M", "0", ";", "DB", "3")
+	if custom {
+		vu.Stat("scenario_custom_engine")
+	} else {
+		vu.Stat("scenario_speculative")
+	}
+	return in
+}
+
 var c05FcSizes = []int{0, 1, 200, 200, 7}
 var c05VcSizes = []int{0, 1, 64, 1638, 1638}
 
@@ -817,6 +930,16 @@ func init() {
 				}
 			}
 			for i := 0; i < n; {
+				switch r.Intn(10) {
+				case 0:
+					emit(c05TwoEpochs(r, tier)...)
+					i++
+					continue
+				case 1:
+					emit(c05Speculative(r, tier, r.Intn(2) == 0)...)
+					i++
+					continue
+				}
 				d := c05PickDag(r, tier, i)
 				for mode := 0; mode < 3 && i < n; mode++ {
 					order := c05Order(r, d, mode)
